@@ -343,7 +343,12 @@ def run_shard(spec, ctx):
     i, of = spec['shard'], spec['of']
     n = max(1, NCHAIN[ctx.tier] // of)
     for j in range(n):
-        judge_chain(ctx, ctx.rng(j), j)
+        # a third of the chains live in a process configured with every
+        # register export off (functions.flags[1..9] = False)
+        off = j % 3 == 1
+        ctx.tab('registers', 'off' if off else 'default')
+        with env.global_flags(env.REGISTERS_OFF if off else {}):
+            judge_chain(ctx, ctx.rng(j), j)
 
 
 def finalize(agg, tier):
